@@ -107,8 +107,11 @@ def code_for_string_token(name, value, location):
     assert len(value) >= 2
     left_quote = value[0]
     right_quote = value[-1]
-    assert left_quote in "\"'", "left_quote=%r" % left_quote
-    assert right_quote in "\"'", "right_quote=%r" % right_quote
+    if (left_quote not in "\"'") or (right_quote not in "\"'"):
+        # For example a bytes literal like b'a' or a raw string like r'a'.
+        raise errors.InterfaceError(
+            "text for %s must be a plain quoted string but is: %s" % (name, _compat.text_repr(value)), location
+        )
 
     value_without_quotes = value[1:-1]
     if len(value_without_quotes) != 1:
